@@ -74,6 +74,17 @@ def recursion_ir(pkg="com.palantir.rec"):
         ir.enum_("RecKey", ["A", "B"], package=pkg),
         ir.object_("ExternalHolder", [ir.field("e", ir.external(P("DOUBLE"))), ir.field("l", ir.list_(ir.external(P("STRING")))),
                                       ir.field("o", ir.optional(ir.external(R("SelfOpt"), name="ExtSelf")))], package=pkg),
+        # cycles in which only one member holds a double, and types outside the cycle that refer to each member
+        ir.object_("CycD1", [ir.field("next", ir.optional(R("CycD2"))), ir.field("d", P("DOUBLE"))], package=pkg),
+        ir.object_("CycD2", [ir.field("back", ir.optional(R("CycD1"))), ir.field("n", P("INTEGER"))], package=pkg),
+        ir.object_("CycOutside1", [ir.field("r", R("CycD2")), ir.field("s", P("STRING"))], package=pkg),
+        ir.object_("CycOutside2", [ir.field("r", ir.optional(R("CycD1")))], package=pkg),
+        ir.object_("CycA", [ir.field("b", ir.optional(R("CycB")))], package=pkg),
+        ir.object_("CycB", [ir.field("c", ir.list_(R("CycC")))], package=pkg),
+        ir.object_("CycC", [ir.field("a", ir.optional(R("CycA"))), ir.field("x", ir.map_(P("STRING"), P("DOUBLE")))], package=pkg),
+        ir.object_("UseCycA", [ir.field("a", R("CycA"))], package=pkg),
+        ir.object_("UseCycB", [ir.field("b", ir.optional(R("CycB")))], package=pkg),
+        ir.union_("UseCycC", [ir.field("c", R("CycC")), ir.field("i", P("INTEGER"))], package=pkg),
         ir.union_("EmptyUnion", [], package=pkg),
         ir.object_("EmptyObject", [], package=pkg),
         ir.object_("AllPrims", [ir.field(n.lower() + "F", P(n)) for n in ("STRING", "INTEGER", "SAFELONG", "DOUBLE", "BOOLEAN", "UUID", "RID", "BEARERTOKEN", "DATETIME", "BINARY", "ANY")]
